@@ -127,7 +127,6 @@ class Gen:
         n = r.randint(2, 6)
         classes: list[Cls] = []
         self.h = Hier(classes)
-        attr_id = 0
         meth_names = [0, 1, 2, 3]
         for c in range(n):
             base = r.randrange(c) if c > 0 and r.random() < 0.65 else None
@@ -136,10 +135,15 @@ class Gen:
             classes.append(cd)
         for c, cd in enumerate(classes):
             for _ in range(r.choice([0, 1, 1, 2, 2, 3])):
+                # attribute names come from a small pool, so unrelated classes may declare the same name with
+                # different types (union receivers then see a union of attribute types); never a redeclaration
+                # of an inherited attribute (F18)
+                f = r.randrange(8)
+                if any(g == f for g, _ in self.h.all_attrs(c)):
+                    continue
                 # non-optional class-typed attributes only point to earlier classes, so that instances can be built
                 t = self.rand_ty(n, nonopt_below=c, allow_obj=False)
-                cd.attrs.append((attr_id, t))
-                attr_id += 1
+                cd.attrs.append((f, t))
         # __init__: one parameter per attribute (sometimes a constant instead); all signatures first,
         # then the constants (which may construct instances of any class)
         plans = []
@@ -266,14 +270,14 @@ class Gen:
         return len(t) > 0 and all(isinstance(a, tuple) for a in t)
 
     def common_attrs(self, t):
-        """attributes present (with one type) on every item of a class-only type"""
+        """attributes present on every item of a class-only type, with the (simplified union) type of the read"""
         if not self.all_classes(t):
             return []
         res = None
         for a in t:
-            d = dict(self.h.all_attrs(a[1]))
-            res = d if res is None else {k: v for k, v in res.items() if d.get(k) == v}
-        return list(res.items())
+            d = {k: [v] for k, v in self.h.all_attrs(a[1])}
+            res = d if res is None else {k: v + d[k] for k, v in res.items() if k in d}
+        return [(k, self.h.simp([x for ty in v for x in ty])) for k, v in res.items()]
 
     def common_meths(self, t):
         if not self.all_classes(t):
@@ -546,8 +550,9 @@ class Gen:
                     env = self.reset_assigned(ee_, tb + eb)
                     self.stat("guard-return")
             elif k < 0.30 and depth < 2 and self.self_cls is None:
-                out += self.loop(env, depth)
-                env = self.reset_assigned(env, out[-1:])
+                stm = self.loop(env, depth)
+                out += stm
+                env = self.reset_assigned(env, stm)
             elif k < 0.50:
                 # reassignment of a local, narrowing it to the assigned type
                 xs = [x for x in env if not (self.self_cls is not None and x == 0) and x not in self.protected]
@@ -632,11 +637,26 @@ class Gen:
             if c is not None and c[1] is not None:
                 cond, et = ("and", c[0], counter), c[1]
                 self.stat("loop-narrowing-guard")
+        pre, post = [], []
+        carried = [x for x in env if x not in self.protected and not (self.self_cls is not None and x == 0)
+                   and (len(self.decl[x]) > 1 or isinstance(self.decl[x][0], tuple))]
+        if carried and r.random() < 0.65:
+            # a loop-carried local: narrowed by an assignment before the loop, observed at the top of the body,
+            # assigned something else at the end of the body — its type in the body is the fixpoint, not the entry type
+            x = r.choice(carried)
+            t1, t2 = self.pick_subtype(self.decl[x]), self.pick_subtype(self.decl[x])
+            pre.append(("assign", x, self.expr(t1, env, 1)))
+            post.append(("assign", x, self.expr(t2, et, 1)))
+            self.stat("loop-carried-local")
+            head = self.uses(x, et[x], et)
+        else:
+            head = []
         body, _, live = self.block(et, depth + 1, r.randint(1, 3))
+        if not live:
+            post = []
         inc = ("assign", i, ("add", ("var", i), ("intLit", 1)))
         self.stat("while")
-        # locals narrowed before the loop and assigned in it would need the fixpoint; the conservative env does that
-        return [d1, d2, ("while", cond, seq([inc] + body))]
+        return pre + [d1, d2, ("while", cond, seq([inc] + head + body + post))]
 
     # ------------------------------------------------------------------------------------- programs
     def program(self):
